@@ -262,6 +262,59 @@ theorem squeezeAll_leaf_commutes (t : T α) (n : Nat) (hn : n ≤ t.rank) :
   obtain ⟨t', h1, h2⟩ := view_leaf_commutes t n ((t.shape.take n).filter (· ≠ 1)) hn (prod_filter_ne_one _)
   exact ⟨t', h1, Eqv2.trans h2 (reshape_eqv_squeezeAll (asBatch n t))⟩
 
+/-- repeat: the leaf call `leaf.repeat(*repeats, 1, …, 1)` tiles the batch dims and leaves the feature dims alone -/
+theorem repeat_leaf_commutes (t : T α) (n : Nat) (r : List Nat) (hr : r.length = n) (hn : n ≤ t.rank) :
+    asBatch n (t.repeat (r ++ List.replicate (t.rank - n) 1)) ≈ₜₜ (asBatch n t).repeat r := by
+  unfold T.rank at hn
+  have hsplit : t.shape = t.shape.take n ++ t.shape.drop n := (List.take_append_drop n t.shape).symm
+  have hBl : (t.shape.take n).length = n := by simp; omega
+  have hFl : (t.shape.drop n).length = t.shape.length - n := by simp
+  have hshape : List.zipWith (· * ·) t.shape (r ++ List.replicate (t.rank - n) 1)
+      = List.zipWith (· * ·) (t.shape.take n) r ++ t.shape.drop n := by
+    conv => lhs; rw [hsplit]
+    rw [List.zipWith_append (by rw [hBl, hr])]
+    unfold T.rank
+    rw [← hFl, zipWith_mul_ones]
+  have hzl : (List.zipWith (· * ·) (t.shape.take n) r).length = n := by simp [hBl, hr]
+  apply asBatch_eqv2
+  · simp only [T.repeat, asBatch, hshape]
+    rw [List.take_left' hzl]
+  · intro c hc
+    have hcl : c.length = n := by
+      have := InB.length_eq hc
+      simp only [T.repeat, hshape] at this
+      rw [List.take_left' hzl] at this; omega
+    refine ⟨by simp only [T.repeat, asBatch, hshape]; rw [List.drop_left' hzl], ?_⟩
+    intro f hf
+    have hf' : InB f (t.shape.drop n) := by
+      simp only [T.repeat, hshape] at hf; rw [List.drop_left' hzl] at hf; exact hf
+    simp only [T.repeat, asBatch]
+    congr 1
+    conv => lhs; rw [hsplit]
+    rw [List.zipWith_append (by rw [hcl, hBl]), zipWith_mod_inb f _ hf']
+
+/-- repeat_interleave: the leaf call on a batch dim acts on the batch view only -/
+theorem repeat_interleave_leaf_commutes (t : T α) (n r d : Nat) (hd : d < n) (hn : n ≤ t.rank) :
+    asBatch n (t.repeatInterleave r d) ≈ₜₜ (asBatch n t).repeatInterleave r d := by
+  unfold T.rank at hn
+  have htk : (t.shape.modify d (· * r)).take n = (t.shape.take n).modify d (· * r) := by
+    apply List.ext_getElem?; intro k
+    simp [List.getElem?_take, List.getElem?_modify]; grind
+  have hdr : (t.shape.modify d (· * r)).drop n = t.shape.drop n := by
+    apply List.ext_getElem?; intro k
+    simp [List.getElem?_drop, List.getElem?_modify]; grind
+  apply asBatch_eqv2
+  · simp only [T.repeatInterleave, asBatch]; exact htk
+  · intro c hc
+    have hcl : c.length = n := by
+      have := InB.length_eq hc
+      simp only [T.repeatInterleave] at this; rw [htk] at this; simp at this; omega
+    refine ⟨by simp only [T.repeatInterleave, asBatch]; exact hdr, ?_⟩
+    intro f _
+    simp only [T.repeatInterleave, asBatch]
+    rw [modify_append_left c f d _ (by omega)]
+
+
 /-! ## view / reshape / unflatten: sizes are validated by the leaf calls only (known finding C02-view-leafless-unvalidated) -/
 
 /- FULL STATEMENT (false of the code, see `view_batch_eq_torch_counterexample`):
